@@ -20,8 +20,8 @@ Proof.
   rewrite (nth_indep (map fe raw) 0 (fe 0)) by (rewrite map_length; exact L).
   rewrite !map_nth. set (x := nth k raw 0). unfold fe, fr, qabs.
   destruct (qleb_spec 0 x) as [P|P]; destruct (qltb_spec x 0) as [N|N]; try lra; rewrite ?qdiv_eq.
-  - assert (E : x / 1000 == x * (1 # 1000)) by (field). rewrite E. repeat split; try lra. left; reflexivity.
+  - assert (E : x / 1000 == x * (1 # 1000)) by (field). rewrite E. repeat split; try lra; try (left; reflexivity).
   - assert (A : Qabs x == - x) by (apply Qabs_neg; lra). rewrite A.
     assert (E : - x / 1000 == - x * (1 # 1000)) by (field). assert (E2 : x / 1000 == x * (1 # 1000)) by (field). rewrite E, E2.
-    repeat split; try lra. right; reflexivity.
+    repeat split; try lra; try (right; reflexivity).
 Qed.
